@@ -1,3 +1,4 @@
 SPECIFICATION Spec
+CONSTANTS Tier = "thorough"
 INVARIANTS LawSizeMultipleOfAlign LawOffsetsAligned LawZeroTailInside Emit
 CHECK_DEADLOCK FALSE
